@@ -232,6 +232,7 @@ type modelResp struct {
 		CntBF uint64 `json:"cntBF"`
 		Oof   bool   `json:"oof"`
 	} `json:"overlap"`
+	Graph *graphModel `json:"graph"`
 }
 
 type outcome struct {
@@ -381,7 +382,7 @@ func (r *runner) one(c caseT) *outcome {
 	var m modelResp
 	// the overlap model re-runs the whole memoised rule: asked for whenever the real rule made < 2 million findConflict calls
 	wantOverlap := o.Validate[graphql.VerifSiteFindConflict] < 2000000
-	req := map[string]interface{}{"schema": b.desc, "doc": astjson.Document(doc), "op": c.Op, "vars": c.Vars, "world": root.json(), "overlap": wantOverlap}
+	req := map[string]interface{}{"schema": b.desc, "doc": astjson.Document(doc), "op": c.Op, "vars": c.Vars, "world": root.json(), "overlap": wantOverlap, "graph": true, "graphWork": c.Family != "random-fragment-graph" || c.N%4 == 0}
 	if err := r.drv.Ask(req, &m); err != nil {
 		run.CheckError(err.Error())
 		return nil
@@ -418,6 +419,25 @@ func (r *runner) one(c caseT) *outcome {
 			return o
 		}
 		run.Tag("overlap-counters-compared-with-model")
+	}
+	// --- graph rules: list lengths / cycle errors read through the public API (and the proposed step counters when the
+	// library has them) against c02b's model with the step counters of GqlModel/GraphCost.lean
+	gobs, gprob := graphGo(&b.schema, doc)
+	if gprob != "" {
+		viol("graph rules: "+gprob, nil)
+		return nil
+	}
+	if note := graphCompare(m.Graph, gobs, o.Validate); note != "" {
+		if strings.Contains(note, "model/driver fault") {
+			run.Violation("graph rules: "+note, map[string]interface{}{"case": c, "model": m.Graph}, true)
+		} else {
+			viol("graph rules: "+note, map[string]interface{}{"model": m.Graph, "go_graph": gobs})
+		}
+		return o
+	}
+	run.Tag("graph-observables-compared-with-model")
+	if len(o.Validate) >= 11 {
+		run.Tag("graph-step-counters-compared-with-model")
 	}
 	if m.PlanErr != o.PlanErr {
 		viol("PlanQuery error/success differs from the model's operation selection", map[string]interface{}{"model": m})
@@ -800,6 +820,11 @@ func main() {
 		return allSeries[i].Family+allSeries[i].Phase < allSeries[j].Family+allSeries[j].Phase
 	})
 	run.Res.Extra["series"] = allSeries
+	tFam := time.Now()
+	if !poisoned && !run.TooManyViolations() {
+		run.Res.Extra["graph_series"] = r.graphFamilies()
+	}
+	run.Res.Extra["graph_families_s"] = time.Since(tFam).Seconds()
 	run.Res.Extra["watchdog_s"] = watchdog.Seconds()
 
 	// random fragment graphs
